@@ -245,3 +245,78 @@ func vh_C04_afterfailure() {
 	vAssert(!panicked && err == nil && res == SexpNull, "afterfailure-empty-input-is-nil")
 	vReach("afterfailure")
 }
+
+// vh_C04_queued: the embedding API lets a host queue code with several Load
+// calls (LoadString, LoadExpressions) before one Run, or between Runs.  A
+// successful Run of queued code leaves the interpreter as evaluating the
+// same forms one at a time does: the last form's value returned, the four
+// stacks at rest, empty input afterwards nil.
+func vh_C04_queued() {
+	vFormatOpaque(true)
+	env := vEvalEnv(0)
+	h := vSmallInt("h")
+	texts := []string{`(def a 9001)`, `(+ a 1)`, `(begin (def b (+ a 2)) b)`, `(let [q a] (* q 2))`, `(defn g [x] (+ x a))`, `(g 3)`, `[a 1]`, `(cond (< a 0) 1 2)`}
+	n := 2 + vChoice("loads", 3)
+	how := vChoice("how", 3)
+	var lastForm string
+	for i := 0; i < n; i++ {
+		var txt string
+		if i == 0 {
+			txt = texts[0]
+		} else {
+			txt = texts[1+vChoice("text", len(texts)-1)]
+		}
+		lastForm = txt
+		forms := vT(env, txt, h)
+		var err error
+		switch how {
+		case 0:
+			err = env.LoadExpressions(forms)
+		case 1:
+			// two forms in one load
+			err = env.LoadExpressions(append(vT(env, `(def unused 1)`), forms...))
+		default:
+			// a Run between the first load and the rest
+			err = env.LoadExpressions(forms)
+			if err == nil && i == 0 {
+				_, err = env.Run()
+			}
+		}
+		if err != nil {
+			vAssert(false, "queued-load-succeeds")
+			return
+		}
+	}
+	res, err := env.Run()
+	if err != nil {
+		vDone() // e.g. g called before it was queued: failed evaluations are C05's subject
+	}
+	// the value is the last form's: compare with a twin that evaluates the last form alone
+	twin := vEvalEnvs[1]
+	for _, txt := range []string{texts[0], `(defn g [x] (+ x a))`, `(def b (+ a 2))`} {
+		for _, f := range vT(twin, txt, h) {
+			if _, e2, p2 := vEval(twin, f); e2 != nil || p2 {
+				vAssert(false, "twin-setup")
+				return
+			}
+		}
+	}
+	var want Sexp
+	for _, f := range vT(twin, lastForm, h) {
+		var e2 error
+		var p2 bool
+		want, e2, p2 = vEval(twin, f)
+		if e2 != nil || p2 {
+			vAssert(false, "twin-evaluates")
+			return
+		}
+	}
+	if _, isFn := want.(*SexpFunction); !isFn {
+		vAssert(vSexpEq(res, want), "queued-run-returns-the-last-form's-value")
+	}
+	vC04AtRest(env, "queued")
+	r2, e3, p3 := vEvalString(env, "")
+	vAssert(!p3 && e3 == nil && r2 == SexpNull, "queued-empty-input-is-nil")
+	vC04AtRest(env, "queued-after-empty")
+	vReach("queued")
+}
